@@ -610,7 +610,8 @@ def run(chk, repo):
         except Inconclusive as ex:
             raise AnalysisError("cannot fold the kernel call of LinearFilter.__call__ for %s: %s" % (sch.label(), ex))
         ni, di = fa["num_iterables"] or [], fa["den_iterables"] or []
-        if not (isinstance(ni, list) and isinstance(di, list) and all(isinstance(k_, int) for k_ in ni + di)):
+        if fa["num_iterables"] is None or fa["den_iterables"] is None \
+                or not (isinstance(ni, list) and isinstance(di, list) and all(isinstance(k_, int) for k_ in ni + di)):
             # the builder keeps its bookkeeping in another shape: the expected arguments follow from the coefficients
             ni = [k_ for k_, t_ in sch.num.items() if t_.cls == "stream"]
             di = [k_ for k_, t_ in sch.den.items() if t_.cls == "stream" and k_ != 0]
